@@ -129,18 +129,38 @@ with dom_l (q : pl) : Prop :=
   end.
 Definition dom (p : pz + pl) : Prop := match p with inl p => dom_z p | inr q => dom_l q end.
 
-(* pipelines whose sources cannot fail and whose callbacks never fail *)
-Definition src_clean (s : source) : Prop := match s with SScript _ => False | _ => True end.
-Fixpoint clean_z (p : pz) : Prop :=
+(* ---- fault-freedom ---- *)
+Fixpoint no_fatal (evs : list sevent) : Prop :=
+  match evs with [] => True | EvFatal _ :: _ => False | _ :: t => no_fatal t end.
+Fixpoint no_transient (evs : list sevent) : Prop :=
+  match evs with [] => True | EvTransient _ :: _ => False | _ :: t => no_transient t end.
+
+(* [okz ae p]: parameters in the documented domain, callbacks never fail, scripted sources have
+   no fatal error; with ae = false they have no transient error either (nothing can fail),
+   with ae = true any number of transient errors is allowed. *)
+Definition src_ok (ae : bool) (s : source) : Prop :=
+  match s with
+  | SScript evs => no_fatal evs /\ (ae = false -> no_transient evs)
+  | _ => True
+  end.
+Fixpoint okz (ae : bool) (p : pz) : Prop :=
   match p with
-  | ZSrc _ s => src_clean s
-  | ZPeek p | ZCompact _ p | ZFirst _ p => clean_z p
-  | ZFilter _ fl p | ZMap _ fl p | ZWhile _ fl p => fail_at fl = None /\ clean_z p
-  | ZFlatten ps | ZJoin ps => fold_right (fun p acc => clean_z p /\ acc) True ps
-  | ZFlattenSlices q => clean_l q
+  | ZSrc _ s => src_ok ae s
+  | ZPeek p | ZCompact _ p | ZFirst _ p => okz ae p
+  | ZFilter _ fl p | ZMap _ fl p | ZWhile _ fl p => fail_at fl = None /\ okz ae p
+  | ZFlatten ps | ZJoin ps => fold_right (fun p acc => okz ae p /\ acc) True ps
+  | ZFlattenSlices q => okl ae q
   end
-with clean_l (q : pl) : Prop :=
-  match q with LChunk _ p | LRuns _ _ p => clean_z p end.
+with okl (ae : bool) (q : pl) : Prop :=
+  match q with
+  | LChunk n p => 1 <= n /\ okz ae p
+  | LRuns _ _ p => okz ae p
+  end.
+Definition okp (ae : bool) (p : pz + pl) : Prop :=
+  match p with inl p => okz ae p | inr q => okl ae q end.
+
+(* failure-free pipelines *)
+Definition clean (p : pz + pl) : Prop := okp false p.
 
 (* ---- induction over pipelines (the nested lists of ZFlatten/ZJoin included) ---- *)
 Section PipeInd.
@@ -200,4 +220,23 @@ Fixpoint expect (l : list item) (k : nat) : list robs :=
       | [] => REnd :: expect [] k'
       | x :: t => RItem x :: expect t k'
       end
+  end.
+
+(* what Next calls may answer for a pipeline that denotes l when calls may fail without
+   consequences (transient errors, expired contexts): items in order, errors anywhere, the end
+   only when everything has been delivered *)
+Fixpoint legal (l : list item) (rs : list robs) : Prop :=
+  match rs with
+  | [] => True
+  | RItem x :: t => match l with y :: l' => x = y /\ legal l' t | [] => False end
+  | REnd :: t => l = [] /\ legal [] t
+  | RErr _ :: t => legal l t
+  | _ :: _ => False
+  end.
+
+Fixpoint items_of (rs : list robs) : list item :=
+  match rs with
+  | [] => []
+  | RItem x :: t => x :: items_of t
+  | _ :: t => items_of t
   end.
